@@ -517,3 +517,15 @@ def shrink(c):
             d = dict(c)
             d["path"] = c["path"][:i] + c["path"][i + 2:]
             yield d
+
+
+# functions of /repo whose executed-line coverage by this run is reported in the evidence
+ANCHORS = [('swh/model/swhids.py', '_BaseSWHID.*'),
+           ('swh/model/swhids.py', 'CoreSWHID.*'),
+           ('swh/model/swhids.py', 'QualifiedSWHID.*'),
+           ('swh/model/swhids.py', '_parse_swhid'),
+           ('swh/model/swhids.py', '_parse_core_swhid'),
+           ('swh/model/swhids.py', '_parse_lines_qualifier'),
+           ('swh/model/swhids.py', '_parse_path_qualifier'),
+           ('swh/model/hashutil.py', 'hash_to_hex'),
+           ('swh/model/hashutil.py', 'hash_to_bytes')]
